@@ -871,21 +871,21 @@ pub fn replace(input_string_value: &Value, pattern_string_value: &Value, replace
           if clear_flag_q {
             flag_q = false;
           }
-          let mut patt = "".to_string();
-          for ch in pattern_string.chars() {
+          // with the flag q every character of the pattern and of the replacement stands for itself
+          let patt = if flag_q { regex::escape(pattern_string) } else { pattern_string.clone() };
+          let replace_all = |re: &Regex| -> String {
             if flag_q {
-              patt.push('\\');
+              re.replace_all(input_string.as_str(), regex::NoExpand(replacement_string.as_str())).trim().to_string()
+            } else {
+              re.replace_all(input_string.as_str(), repl(re).as_str()).trim().to_string()
             }
-            patt.push(ch);
-          }
+          };
           if flags.is_empty() {
             if let Ok(re) = Regex::new(&patt) {
-              let result = re.replace_all(input_string.as_str(), repl(&re).as_str()).trim().to_string();
-              return Value::String(result);
+              return Value::String(replace_all(&re));
             }
           } else if let Ok(re) = Regex::new(format!("(?{}){}", flags, patt).as_str()) {
-            let result = re.replace_all(input_string.as_str(), repl(&re).as_str()).trim().to_string();
-            return Value::String(result);
+            return Value::String(replace_all(&re));
           }
         }
         // replace without any flags
